@@ -630,8 +630,7 @@ theorem Inv.promote {fs : FS} {s : Repo} (hinv : Inv fs s) (n : Loaded) (stale :
     (hdeps : ∀ d ∈ n.tl.hdr.deps, DepLoaded s d)
     (hsrc : n.source = builtinSource ∨ FileAt fs n.source n.tl.hdr) :
     Inv fs { s with lazy := eraseTbl s.lazy n.ns, typelibs := s.typelibs ++ [n], staleKey := stale } := by
-  have hsub : ∀ l ∈ s.typelibs, l ∈ ({ s with lazy := eraseTbl s.lazy n.ns, typelibs := s.typelibs ++ [n],
-      staleKey := stale } : Repo).typelibs := fun l hl => List.mem_append_left _ hl
+  have hsub : ∀ l ∈ s.typelibs, l ∈ s.typelibs ++ [n] := fun l hl => List.mem_append_left _ hl
   refine ⟨?_, ?_, ?_, ?_, ?_⟩
   · simp only [List.map_append, List.map_cons, List.map_nil]
     rw [List.nodup_append]
@@ -774,7 +773,9 @@ theorem register_stale {req : Req} (h : StaleMono req) (s : Repo) (src : Str) (l
       | ok u =>
         simp only
         cases lookupTbl s1.lazy tl.hdr.ns with
-        | some l => simp [hd]
+        | some l =>
+          have hd' : s1.staleKey = true := by simpa using hd
+          simp [hd']
         | none => simpa using hd
 
 theorem require_stale (fs : FS) : ∀ fuel s ns ver lazy path, s.staleKey = true →
